@@ -826,7 +826,7 @@ void GridLocalPolynomial::getDifferentiationWeights(const double x[], double wei
 
     std::vector<int> active_points;
     std::vector<double> diff_hbasis_values;
-    std::fill_n(weights, work.getNumIndexes(), 0.0);
+    std::fill_n(weights, Utils::size_mult(work.getNumIndexes(), num_dimensions), 0.0); // there are num_dimensions weights per point
 
     walkTree<4>(work, x, active_points, diff_hbasis_values, nullptr);
     auto ibasis = diff_hbasis_values.begin();
